@@ -96,24 +96,33 @@ Qed.
 
 (* a shape that cannot be broadcast: rejected *)
 Lemma arr_wrong_shape (m : mesh) (nv : nat) (sh : list Z) (data : list V) :
-  ((nv =? 1)%nat && zlist_eqb sh (n m) = false) -> bcast_ok sh (shape_of m nv) = false ->
+  ((nv =? 1)%nat && zlist_eqb sh (n m) = false) -> bcast_ok (eff_shape m nv sh) (shape_of m nv) = false ->
   is_ok (as_array_arr vzero m nv sh data) = false.
 Proof.
   intros H1 H2. unfold as_array_arr. destruct sh as [|s t]; [reflexivity|].
-  rewrite H1. destruct (negb _); [reflexivity|]. unfold full_bcast. rewrite H2. reflexivity.
+  rewrite H1. destruct (negb _); [reflexivity|]. unfold full_bcast. cbv zeta. rewrite H2. reflexivity.
 Qed.
 
 (* accepted array-likes: the cell holds the broadcast entries *)
 Lemma arr_accepted (m : mesh) (nv : nat) (sh : list Z) (data : list V) a :
   ((nv =? 1)%nat && zlist_eqb sh (n m) = false) ->
   as_array_arr vzero m nv sh data = OK a ->
-  last_z sh = Z.of_nat nv /\ bcast_ok sh (shape_of m nv) = true /\
-  forall i, a i = map (fun k => nda_at vzero sh data (bcast_idx sh (i ++ [k]))) (ziota 0 nv).
+  last_z sh = Z.of_nat nv /\ bcast_ok (eff_shape m nv sh) (shape_of m nv) = true /\
+  forall i, a i = map (fun k => nda_at vzero (eff_shape m nv sh) data
+                                  (bcast_idx (eff_shape m nv sh) (i ++ [k]))) (ziota 0 nv).
 Proof.
   intros H1. unfold as_array_arr. destruct sh as [|s t]; [discriminate|].
-  rewrite H1. destruct (last_z (s :: t) =? Z.of_nat nv)%Z eqn:E; simpl; [|discriminate].
-  unfold full_bcast. destruct (bcast_ok (s :: t) (shape_of m nv)) eqn:B; [|discriminate].
+  rewrite H1. destruct (last_z (s :: t) =? Z.of_nat nv)%Z eqn:E; simpl negb; cbv iota; [|discriminate].
+  unfold full_bcast. cbv zeta.
+  destruct (bcast_ok (eff_shape m nv (s :: t)) (shape_of m nv)) eqn:B; [|discriminate].
   intros H; injection H as <-. apply Z.eqb_eq in E. auto.
+Qed.
+
+Lemma eff_shape_same (m : mesh) (nv : nat) (sh : list Z) :
+  (length sh <= length (shape_of m nv))%nat -> eff_shape m nv sh = sh.
+Proof.
+  intros H. unfold eff_shape. replace (length sh - length (shape_of m nv))%nat with 0%nat by lia.
+  destruct sh; reflexivity.
 Qed.
 
 (* broadcasting with the full shape is the identity on in-range indices *)
